@@ -812,13 +812,19 @@ func TestKnownFindings(t *testing.T) {
 
 // dangleCase: m1's start function stores its own function in m0's funcref global and traps;
 // after GC m0 calls through the global.
-func dangleCase() *Case {
+// With imported == true the stored reference is to a function m1 IMPORTS from m0 (m0 is alive,
+// but on the interpreter the reference points into m1's engine).
+func dangleCase(imported bool) *Case {
+	m1 := &ModSpec{Name: "m1", Imports: []ImportSpec{{Mod: "m0", Name: "g0", Kind: kGlobal, VT: wasmenc.FuncRef, Mut: true, Max: noMax}},
+		Funcs:   []FuncSpec{{Sig: 0, ID: 201, Ops: []Op{{K: "ginc", A: 1}}}},
+		Globals: []GlobalSpec{{VT: wasmenc.I32, Mut: true, Init: Expr{K: "i32", V: 5}}},
+		Start:   &StartSpec{Ops: []Op{{K: "gsetf", A: 0, C: 1}}, Trap: true}}
+	if imported {
+		m1.Imports = append(m1.Imports, ImportSpec{Mod: "m0", Name: "f0", Kind: kFunc, Sig: 0, Max: noMax})
+	}
 	return &Case{AllowExcluded: true, Specs: []*ModSpec{
 		{Name: "m0", Funcs: []FuncSpec{{Sig: 0, ID: 101}}, Globals: []GlobalSpec{{VT: wasmenc.FuncRef, Mut: true, Init: Expr{K: "null"}}}},
-		{Name: "m1", Imports: []ImportSpec{{Mod: "m0", Name: "g0", Kind: kGlobal, VT: wasmenc.FuncRef, Mut: true, Max: noMax}},
-			Funcs:   []FuncSpec{{Sig: 0, ID: 201, Ops: []Op{{K: "ginc", A: 1}}}},
-			Globals: []GlobalSpec{{VT: wasmenc.I32, Mut: true, Init: Expr{K: "i32", V: 5}}},
-			Start:   &StartSpec{Ops: []Op{{K: "gsetf", A: 0, C: 1}}, Trap: true}}},
+		m1},
 		Script: []Step{{Op: "inst", Spec: 0, As: "m0"}, {Op: "inst", Spec: 1, As: "m1", Bytes: true}, {Op: "gc"}, {Op: "gc"}, {Op: "gc"},
 			{Op: "inst", Spec: 0, As: "m0b", Bytes: true}, {Op: "gc"}, {Op: "gc"},
 			{Op: "acc", Inst: "m0", Acc: "gcall", Idx: 0, Sig: 0}, {Op: "acc", Inst: "m0", Acc: "gcall", Idx: 0, Sig: 0}}}
@@ -834,8 +840,17 @@ func TestKnownDangle(t *testing.T) {
 	if sh, _ := evid.Shard(); sh != 0 {
 		return
 	}
-	c := dangleCase()
-	dir := filepath.Join(evid.WorkDir(), "dangle")
+	for _, imported := range []bool{false, true} {
+		if testKnownDangle(t, imported) {
+			return
+		}
+	}
+	evid.Note("finding %s no longer reproduces on its specific inputs", findDangle)
+}
+
+func testKnownDangle(t *testing.T, imported bool) (reproduced bool) {
+	c := dangleCase(imported)
+	dir := filepath.Join(evid.WorkDir(), fmt.Sprintf("dangle-%v", imported))
 	os.MkdirAll(dir, 0o755)
 	b, _ := json.Marshal(map[string]any{"property": "C04", "check": "known-" + findDangle, "case": c})
 	rp := filepath.Join(dir, "case.json")
@@ -853,8 +868,7 @@ func TestKnownDangle(t *testing.T) {
 	cmd.Env = append(cmd.Env, "VERIF_REPLAY="+rp, "VERIF_REPLAY_DIR="+filepath.Join(dir, "rp"), "GODEBUG=clobberfree=1")
 	out, err := cmd.CombinedOutput()
 	if err == nil {
-		evid.Note("finding %s no longer reproduces on its specific input", findDangle)
-		return
+		return false
 	}
 	msg := firstLine(strings.TrimSpace(strings.TrimPrefix(string(out), "--- FAIL: TestReplay")))
 	for _, l := range strings.Split(string(out), "\n") {
@@ -863,7 +877,8 @@ func TestKnownDangle(t *testing.T) {
 			break
 		}
 	}
-	if evid.Finding(findDangle, "known-"+findDangle, c, "%s: after the failed instantiation of m1 and GC: %s", findDangle, msg) {
+	if evid.Finding(findDangle, "known-"+findDangle, c, "%s: after the failed instantiation of m1 and GC (reference to an imported function: %v): %s", findDangle, imported, msg) {
 		t.Errorf("%s: %s", findDangle, msg)
 	}
+	return true
 }
